@@ -30,7 +30,10 @@ package main
 // Understood Go (everything else is refused with an error): `x, err := f(e)` for the three
 // translated helpers and the database call, `_, ok := database.GetKeyperIndex(pkh.config.GetAddress(), e)`,
 // `err := ` / `err = ` a call of broadcastEonPublicKey / the handler func / SendMessage,
-// `v := EonPublicKey{...}` with the four fields, `if c { ... }` without else and init, `return`
+// `v := EonPublicKey{...}` with the four fields, `if [init;] c { ... }` without else (init a :=
+// statement of the forms above, its variables local to the if), `continue` as the last statement
+// of a block inside the loop (flow Cont: skips the rest of the body, becomes Next at the end of
+// the iteration - unlike Ret, which is absorbing for the whole loop), `return`
 // of nil / err / errors.Wrap(err, "...") / errors.Errorf("...", ...), one `for _, x := range xs`;
 // conditions built from !, &&, ||, `err != nil`, `err == nil`, `pkh.broadcastEonPubKey`,
 // `pkh.eonPubkeyHandler != nil`, boolean locals; field reads of the row and of EonPublicKey.
@@ -65,6 +68,7 @@ type epk struct {
 	errFrom map[string]string // err variable -> "query" (a bare `return err` is the query's error) | "call"
 	recv    string            // receiver name of the handler methods
 	loops   int
+	inLoop  bool     // a `continue` is understood only inside the loop body
 	bodies  []string // translated loop bodies, emitted as separate definitions
 	err     error
 }
@@ -251,14 +255,39 @@ func (t *epk) block(ss []ast.Stmt) string {
 		}
 		return t.ret(s)
 	case *ast.IfStmt:
-		if s.Init != nil || s.Else != nil {
-			return t.fail("unsupported if form")
+		if s.Else != nil {
+			return t.fail("unsupported if form (else)")
 		}
-		cond := t.ex(s.Cond)
+		// `if init; c { B }` is the assignment followed by `if c { B }`, the variables of the
+		// init statement being local to the if
 		saveK, saveE := copyMap(t.kinds), copyMap(t.errFrom)
-		body := t.block(s.Body.List)
+		theIf := func() string {
+			cond := t.ex(s.Cond)
+			k2, e2 := copyMap(t.kinds), copyMap(t.errFrom)
+			body := t.block(s.Body.List)
+			t.kinds, t.errFrom = k2, e2
+			return "if " + cond + " then (" + body + ") else (st, Next)"
+		}
+		var first string
+		switch init := s.Init.(type) {
+		case nil:
+			first = theIf()
+		case *ast.AssignStmt:
+			if init.Tok != token.DEFINE {
+				return t.fail("unsupported if form (init is not a := statement)")
+			}
+			first = t.assign(init, theIf)
+		default:
+			return t.fail("unsupported if form (init %T)", s.Init)
+		}
 		t.kinds, t.errFrom = saveK, saveE
-		return "gen_bind (if " + cond + " then (" + body + ") else (st, Next)) (fun st =>\n  " + rest() + ")"
+		return "gen_bind (" + first + ") (fun st =>\n  " + rest() + ")"
+	case *ast.BranchStmt:
+		// `continue`: the rest of the body is skipped and the loop goes on - not a return
+		if s.Tok != token.CONTINUE || s.Label != nil || !t.inLoop || len(ss) != 1 {
+			return t.fail("unsupported branch statement %s", s.Tok)
+		}
+		return "(st, Cont)"
 	case *ast.RangeStmt:
 		xs, ok := s.X.(*ast.Ident)
 		val, ok2 := s.Value.(*ast.Ident)
@@ -270,10 +299,12 @@ func (t *epk) block(ss []ast.Stmt) string {
 		}
 		saveK, saveE := copyMap(t.kinds), copyMap(t.errFrom)
 		t.define(val.Name, "row")
+		t.inLoop = true
 		body := t.block(s.Body.List)
+		t.inLoop = false
 		t.kinds, t.errFrom = saveK, saveE
 		t.bodies = append(t.bodies, fmt.Sprintf("Definition gen_loop_body (h : hcfg) (%s : joined) (st : gen_state) : gen_state * gen_flow :=\n  %s.\n", t.v(val.Name), body))
-		return "gen_bind (fold_left (fun acc " + t.v(val.Name) + " => gen_bind acc (fun st => gen_loop_body h " + t.v(val.Name) + " st)) " + t.v(xs.Name) + " (st, Next)) (fun st =>\n  " + rest() + ")"
+		return "gen_bind (fold_left (fun acc " + t.v(val.Name) + " => gen_bind acc (fun st => gen_end_iter (gen_loop_body h " + t.v(val.Name) + " st))) " + t.v(xs.Name) + " (st, Next)) (fun st =>\n  " + rest() + ")"
 	case *ast.AssignStmt:
 		return t.assign(s, rest)
 	}
@@ -588,21 +619,30 @@ Open Scope Z_scope.
 (* ---- fixed vocabulary of the translation (not read from the source) ---- *)
 (* what a function returned: nil, the error of the database call, an error of a class *)
 Inductive gen_ret := RNil | RQuery | RErr (e : err).
-(* control: fall through to the next statement / iteration, or the function has returned *)
-Inductive gen_flow := Next | Ret (r : gen_ret).
+(* control: fall through to the next statement, continue (skip the rest of the loop body),
+   or the function has returned *)
+Inductive gen_flow := Next | Cont | Ret (r : gen_ret).
 (* the calls made to the publication mechanisms so far, the mechanisms' remaining answers *)
 Definition gen_state := (list (call * bool) * list bool)%type.
 Definition gen_bind (r : gen_state * gen_flow) (k : gen_state -> gen_state * gen_flow) : gen_state * gen_flow :=
   match r with
   | (st, Next) => k st
+  | (st, Cont) => (st, Cont)
   | (st, Ret x) => (st, Ret x)
+  end.
+(* the end of one loop iteration: a continue and reaching the end of the body both go on to
+   the next iteration, a return does not *)
+Definition gen_end_iter (r : gen_state * gen_flow) : gen_state * gen_flow :=
+  match r with
+  | (st, Cont) => (st, Next)
+  | x => x
   end.
 (* a call of a mechanism: it is recorded with the mechanism's answer; true = a nil error *)
 Definition gen_env_call (c : call) (st : gen_state) : gen_state * bool :=
   let (a, ans') := next_answer (snd st) in ((fst st ++ [(c, a)], ans'), a).
 (* the error result of a translated function as the boolean "is nil" *)
 Definition gen_is_nil (f : gen_flow) : bool :=
-  match f with Next | Ret RNil => true | Ret _ => false end.
+  match f with Next | Cont | Ret RNil => true | Ret _ => false end.
 
 (* ---- translated from the source ---- *)
 `
@@ -700,6 +740,6 @@ func genEonPKLoop(repo string) (string, error) {
 		return "", fmt.Errorf("queryAndHandleNewEonPubKeys: expected exactly one range loop over the rows of the query")
 	}
 	sb.WriteString("(* the body of the loop of queryAndHandleNewEonPubKeys *)\n" + t2.bodies[0] + "\n")
-	fmt.Fprintf(&sb, "(* eonPubKeyHandler.queryAndHandleNewEonPubKeys; query = what GetAndDeleteEonPublicKeys returned\n   (None: an error), answers = what the mechanisms will answer; result: the calls made and what\n   the function returned *)\nDefinition gen_query_and_handle (h : hcfg) (query : option (list joined)) (answers : list bool) : list (call * bool) * gen_ret :=\n  let st : gen_state := ([], answers) in\n  let r :=\n  %s in\n  (fst (fst r), match snd r with Ret x => x | Next => RNil end).\n", body2)
+	fmt.Fprintf(&sb, "(* eonPubKeyHandler.queryAndHandleNewEonPubKeys; query = what GetAndDeleteEonPublicKeys returned\n   (None: an error), answers = what the mechanisms will answer; result: the calls made and what\n   the function returned *)\nDefinition gen_query_and_handle (h : hcfg) (query : option (list joined)) (answers : list bool) : list (call * bool) * gen_ret :=\n  let st : gen_state := ([], answers) in\n  let r :=\n  %s in\n  (fst (fst r), match snd r with Ret x => x | _ => RNil end).\n", body2)
 	return sb.String(), nil
 }
